@@ -549,3 +549,74 @@ func verifC12ShareAck(mixedOnly bool) {
 	verifAssert(e.sc.pendingAcks.Load() == 0, "the pending-acks counter returns to zero after the callback entry ran")
 	verifReached("c12-e2e")
 }
+
+// The next poll finalises the previous one (finalizePreviousPoll, called at the top of every
+// PollRecords): every record of the previous poll that has no FINAL outcome yet — never
+// acknowledged, or only renewed (a renew is not a final outcome and does not persist across
+// polls) — is accepted; a record with a final outcome keeps it. Each of 3 records starts from
+// any of {untouched, accept, release, reject, renew} as the application's Record.Ack body
+// leaves it (tryAck + appendAck, renew still queued on the cursor = not yet confirmed by the
+// broker). After finalizePreviousPoll the real shareAck drains and builds the request: each
+// record offset appears in exactly one batch carrying its one final outcome.
+func VerifC12_nextPollFinalizes() {
+	verifC12Sent = nil
+	e := verifC12NewEnv()
+	s, cur := e.s1, e.cur
+	s.share.sessionEpoch = 3
+	e.sc.memberGen.store("m", 1)
+	slab := &shareAckSlab{ackSource: s, cursor: cur, sessionEpoch: 3}
+	const n = 3
+	slab.states = make([]shareAckState, n)
+	var init [n]AckStatus
+	for i := 0; i < n; i++ {
+		slab.states[i] = shareAckState{deliveryCount: 1, offset: int64(10 + 2*i), slab: slab}
+		init[i] = AckStatus(verifChoose(5))
+		if init[i] != 0 {
+			verifAssert(slab.states[i].tryAck(init[i], false), "the first acknowledgement of a record wins")
+			slab.states[i].appendAck()
+		}
+		e.sc.lastPolled = append(e.sc.lastPolled, &slab.states[i])
+	}
+	e.sc.finalizePreviousPoll()
+	verifAssert(len(e.sc.lastPolled) == 0, "the previous poll's record list is emptied by the next poll")
+	for i := 0; i < n; i++ {
+		fin := AckStatus(slab.states[i].status.Load())
+		if init[i] == 0 || init[i] == AckRenew {
+			verifAssert(fin == AckAccept, "a record left without a final outcome (unacknowledged or only renewed) is accepted at the next poll")
+		} else {
+			verifAssert(fin == init[i], "a final outcome chosen by the application is not overridden by the next poll")
+		}
+	}
+	s.shareAck(nil)
+	verifRunAll()
+	verifAssert(len(verifC12Sent) == 1, "one ShareAcknowledge request carries the finalised records")
+	if len(verifC12Sent) != 1 {
+		return
+	}
+	req := verifC12Sent[0]
+	verifAssert(len(req.Topics) == 1 && len(req.Topics[0].Partitions) == 1, "the request names the one partition")
+	bs := req.Topics[0].Partitions[0].AcknowledgementBatches
+	for i := 0; i < n; i++ {
+		off := int64(10 + 2*i)
+		cnt := 0
+		var typ int8
+		for _, b := range bs {
+			if b.FirstOffset <= off && off <= b.LastOffset {
+				cnt++
+				if len(b.AcknowledgeTypes) == 1 {
+					typ = b.AcknowledgeTypes[0]
+				} else if int(off-b.FirstOffset) < len(b.AcknowledgeTypes) {
+					typ = b.AcknowledgeTypes[off-b.FirstOffset]
+				}
+			}
+		}
+		verifAssert(cnt == 1, "every record of the previous poll is acknowledged exactly once in the request built after the next poll")
+		want := int8(init[i])
+		if init[i] == 0 || init[i] == AckRenew {
+			want = int8(AckAccept)
+		}
+		verifAssert(typ == want, "the acknowledged outcome is the record's final outcome")
+	}
+	verifAssert(e.sc.pendingAcks.Load() == 0, "the pending-acks counter returns to zero after the callback entry ran")
+	verifReached("c12-next-poll")
+}
